@@ -132,6 +132,26 @@ func (p *Prog) lowerTop(fi *FuncInfo, ct *Contract) (fv *FuncIVL, err error) {
 	// literal: captured variables of enclosing functions
 	if fi.Lit != nil {
 		seen := map[types.Object]bool{}
+		assignedInLit := map[types.Object]bool{}
+		ast.Inspect(fi.Lit.Body, func(n ast.Node) bool {
+			var lhs []ast.Expr
+			switch st := n.(type) {
+			case *ast.AssignStmt:
+				if st.Tok != token.DEFINE {
+					lhs = st.Lhs
+				}
+			case *ast.IncDecStmt:
+				lhs = []ast.Expr{st.X}
+			}
+			for _, e := range lhs {
+				if id, ok := ast.Unparen(e).(*ast.Ident); ok {
+					if o := info.Uses[id]; o != nil {
+						assignedInLit[o] = true
+					}
+				}
+			}
+			return true
+		})
 		ast.Inspect(fi.Lit.Body, func(n ast.Node) bool {
 			id, ok := n.(*ast.Ident)
 			if !ok {
@@ -146,6 +166,11 @@ func (p *Prog) lowerTop(fi *FuncInfo, ct *Contract) (fv *FuncIVL, err error) {
 			}
 			seen[v] = true
 			bindEntry(v)
+			if assignedInLit[v] {
+				// a captured variable the literal assigns is shared with the enclosing function: specs see its
+				// current value (old(v) is its value on entry), not a snapshot
+				delete(env, v.Name())
+			}
 			return true
 		})
 	}
